@@ -286,7 +286,7 @@ def read_trace(path):
     return runs
 
 
-def run_case(case, repo, kill=None, timeout=120):
+def run_case(case, repo, kill=None, timeout=45):
     """one crawl (kill=None) or a killed crawl followed by the same command again.
     returns {'runs': [ {'res':..., 'trace': [...]} ... ]}"""
     tmp = tempfile.mkdtemp(prefix='verif-engine-')
